@@ -14,13 +14,36 @@
      - a get_or_insert that finds a node the model does not hold       -> stale table entry
      - children that are not stored / not on a lower level / unreduced -> dangling or ill-formed
      - a collected node that still has a stored parent, or is unknown  -> premature collection
-   (reference counts and value tables are audited by the DD driver on the same trace.) *)
+   (reference counts and value tables are audited by the DD driver on the same trace.)
+
+   C07k -- the apply cache's weak references and the collector's cache protocol.  The hooks also
+   log, each with the bucket's lock held: every successful cache insertion (EV CA) and every cache
+   hit (EV CH) with bucket number, operand and value edges; the start of `pre_gc` (EV CP, number of
+   buckets), every bucket `pre_gc` has cleared and keeps locked (EV CL, runs of consecutive
+   buckets), the start of the sweep (EV GB), every bucket `post_gc` is about to unlock (EV CU) and
+   the end of the collection (EV GE).  They are replayed, in log order and interleaved with the
+   table events, by the extracted log-level step [Model.clstep] of coq/Mgr/ConcCache.v (theorems
+   C07_cache_log_sim / C07_cache_trace_sim: it accepts the projection of every behaviour of the
+   proved interleaving model; C07_cache_clog_inv: whatever it accepts has no dangling weak edge):
+     - an insertion or a hit in a bucket between its pre_gc lock and its post_gc unlock
+     - a node removed by the collector while not ALL buckets are locked (a bucket skipped by
+       pre_gc, the sweep starting early)
+     - post_gc unlocking a bucket pre_gc did not lock
+     - a hit whose entry names a node that is not stored in the replayed table (dangling weak
+       edge), or differs from the entry written last, or in a bucket cleared and not written since
+   are violations (kind=prop). *)
 open Conv
 
 (* ---- trace parsing (the parts of ocaml/dd_types.ml needed here; that file depends on the
    DD extraction) ---- *)
-let nat_cache = Array.init 64 nat_of_int
-let nat i = if i < 64 then nat_cache.(i) else nat_of_int i
+let nat_cache =
+  let a = Array.make 65537 Model.O in
+  for i = 1 to 65536 do a.(i) <- Model.S a.(i - 1) done;
+  a
+let nat i = if i >= 0 && i <= 65536 then nat_cache.(i) else nat_of_int i
+let rec pow2_ge n p = if p >= n then p else pow2_ge n (2 * p)
+let show_phase = function
+  | Model.GIdle -> "idle" | Model.GLock -> "pre_gc" | Model.GSweep -> "sweep" | Model.GUnlock -> "post_gc"
 let kind_of = function
   | "bdd" -> Model.KBdd | "bcdd" -> Model.KBcdd | "zbdd" -> Model.KZbdd
   | "mtbdd" -> Model.KMtbdd | "tdd" -> Model.KTdd | k -> failwith ("kind " ^ k)
@@ -79,6 +102,11 @@ let () =
       let nl = ref 0 in
       let valid = ref false in          (* [table] is the implementation's table right now *)
       let in_par = ref false and replayed = ref false in
+      (* apply cache: log-level state of coq/Mgr/ConcCache.v ([lt] is taken from [table]) *)
+      let nb = pow2_ge (max 1 (match param c "cache" with Some v -> int_of_string v | None -> 1)) 1 in
+      let cache0 () = { Model.lt = []; Model.lb = List.init nb (fun _ -> Model.LUnknown);
+                        Model.lph = Model.GIdle; Model.lnext = Model.O } in
+      let cs : Model.lst ref = ref (cache0 ()) in
       let failed = ref false in
       let fail step kind msg =
         stat "bad_C07" 1;
@@ -113,8 +141,14 @@ let () =
                table := snap_tbl; terms := snap_terms; nl := snap_nl;
                valid := true; replayed := false
              with Failure m -> fail i "corr" ("driver: " ^ m))
-          | "PAR" :: _ -> in_par := true; stat "par_blocks" 1; if not !valid then stat "par_blocks_not_replayed" 1
-          | "ENDPAR" :: _ -> in_par := false; replayed := true
+          | "PAR" :: _ ->
+            in_par := true; stat "par_blocks" 1; cs := cache0 ();
+            if not !valid then stat "par_blocks_not_replayed" 1
+          | "ENDPAR" :: _ ->
+            in_par := false; replayed := true;
+            if !valid && !cs.Model.lph <> Model.GIdle then
+              fail i "prop" (Printf.sprintf "at the end of the parallel block a collection is still in cache phase %s (%d of %d buckets processed)"
+                               (show_phase !cs.Model.lph) (int_of_nat !cs.Model.lnext) nb)
           | "EVSTAT" :: kv ->
             List.iter (fun t -> match String.split_on_char '=' t with
                 | [ s; v ] -> stat ("site_" ^ s) (int_of_string v) | _ -> ()) kv
@@ -155,13 +189,91 @@ let () =
           | "EV" :: "R" :: _tid :: id :: _ when !valid ->
             stat "ev_gc_remove" 1;
             let pid = pos_of_z (Z.succ (Z.of_string id)) in
-            (match Model.step_tbl k !terms (nat !nl) !table (Model.TGc pid) with
-             | Some (t', _) -> table := t'
+            (* the collector removes nodes only while it holds every cache bucket *)
+            if !cs.Model.lph <> Model.GSweep then
+              fail i "prop"
+                (Printf.sprintf "the collector removed %s while it does not hold all apply cache buckets (cache phase %s, %d of %d buckets processed): weak edges may be inserted during the sweep"
+                   (show_id pid) (show_phase !cs.Model.lph) (int_of_nat !cs.Model.lnext) nb)
+            else
+            (match Model.clstep k !terms (nat !nl) { !cs with Model.lt = !table } (Model.CL (Model.LTbl (Model.TGc pid))) with
+             | Some l' -> table := l'.Model.lt
              | None ->
                if Model.cfind !table pid = None then
                  fail i "prop" (Printf.sprintf "the collector removed %s, which is not stored" (show_id pid))
                else
                  fail i "prop" (Printf.sprintf "the collector removed %s although a stored node still refers to it" (show_id pid)))
+          | "EV" :: ("CP" | "CL" | "CU" | "GB" | "GE" | "CA" | "CH" as ev) :: _tid :: rest when !valid ->
+            let st = { !cs with Model.lt = !table } in
+            let ph = st.Model.lph and next = int_of_nat st.Model.lnext in
+            let run a = Model.clstep k !terms (nat !nl) st a in
+            let claimed b = Model.gc_claimed_b ph st.Model.lnext (nat nb) (nat b) in
+            let accept = function
+              | Some l' -> cs := l'; true
+              | None -> false in
+            let ints = List.map int_of_string in
+            let split_edges na nv ids =
+              let all = edges ids in
+              if List.length all <> na + nv then failwith "cache event: edge count";
+              (List.filteri (fun j _ -> j < na) all, List.filteri (fun j _ -> j >= na) all) in
+            let dangling es =
+              List.filter (fun e -> not (Model.edge_ok_b k !terms !table e)) es in
+            (try
+               match ev, rest with
+               | "CP", [ n ] ->
+                 stat "ev_cache_pre_gc" 1;
+                 if int_of_string n <> nb then
+                   fail i "corr" (Printf.sprintf "driver: the cache has %s buckets, expected %d from the case header" n nb)
+                 else if not (accept (run (Model.CL (Model.LPreGc (nat nb))))) then
+                   fail i "prop" (Printf.sprintf "a collection starts pre_gc while the cache phase of a collection is %s (%d of %d buckets processed)" (show_phase ph) next nb)
+               | "CL", [ f; cnt ] ->
+                 let f, cnt = int_of_string f, int_of_string cnt in
+                 stat "ev_cache_lock_runs" 1; stat "ev_cache_buckets_locked" cnt;
+                 if not (accept (run (Model.CLockRun (nat f, nat cnt)))) then
+                   (if ph = Model.GLock && f > next then
+                      fail i "prop" (Printf.sprintf "pre_gc keeps bucket %d locked but left bucket%s %d..%d unlocked: they can receive weak edges during the sweep" f (if f - next > 1 then "s" else "") next (f - 1))
+                    else
+                      fail i "prop" (Printf.sprintf "pre_gc locks buckets %d..%d out of protocol (cache phase %s, %d of %d buckets processed)" f (f + cnt - 1) (show_phase ph) next nb))
+               | "GB", [] ->
+                 stat "ev_cache_sweeps" 1;
+                 if not (accept (run (Model.CL Model.LSweep))) then
+                   (if ph = Model.GLock then
+                      fail i "prop" (Printf.sprintf "the sweep of a collection begins although pre_gc keeps only %d of %d apply cache buckets locked: buckets %d..%d can receive weak edges during the sweep" next nb next (nb - 1))
+                    else
+                      fail i "prop" (Printf.sprintf "the sweep of a collection begins without pre_gc (cache phase %s)" (show_phase ph)))
+               | "CU", [ f; cnt ] ->
+                 let f, cnt = int_of_string f, int_of_string cnt in
+                 stat "ev_cache_unlock_runs" 1; stat "ev_cache_buckets_unlocked" cnt;
+                 if not (accept (run (Model.CUnlockRun (nat f, nat cnt)))) then
+                   fail i "prop" (Printf.sprintf "post_gc unlocks buckets %d..%d which the collector does not hold in this order (cache phase %s, %d of %d buckets processed)" f (f + cnt - 1) (show_phase ph) next nb)
+               | "GE", [] ->
+                 if not (accept (run (Model.CL Model.LGcEnd))) then
+                   fail i "prop" (Printf.sprintf "a collection ends in cache phase %s with %d of %d buckets processed" (show_phase ph) next nb)
+               | ("CA" | "CH"), b :: na :: nv :: ids ->
+                 let b, na, nv = int_of_string b, int_of_string na, int_of_string nv in
+                 let args, vals = split_edges na nv ids in
+                 let what = if ev = "CA" then "insertion into" else "hit in" in
+                 stat (if ev = "CA" then "ev_cache_add" else "ev_cache_hit") 1;
+                 let a = if ev = "CA" then Model.LAdd (nat b, args, vals) else Model.LHit (nat b, args, vals) in
+                 if b >= nb then fail i "corr" (Printf.sprintf "driver: bucket %d of %d" b nb)
+                 else if not (accept (run (Model.CL a))) then
+                   (if claimed b then
+                      fail i "prop" (Printf.sprintf "apply cache %s bucket %d while the collector holds it (cache phase %s, %d of %d buckets processed): the bucket's lock was acquired by two parties or not kept" what b (show_phase ph) next nb)
+                    else match dangling (args @ vals) with
+                      | e :: _ ->
+                        fail i "prop" (Printf.sprintf "apply cache %s bucket %d: the entry ([%s] -> [%s]) names %s, which is not stored (dangling weak edge)" what b
+                                         (String.concat " " (List.map show_edge args)) (String.concat " " (List.map show_edge vals)) (show_edge e))
+                      | [] ->
+                        (match List.nth st.Model.lb b with
+                         | Model.LEmpty ->
+                           fail i "prop" (Printf.sprintf "apply cache hit in bucket %d, which pre_gc cleared and nobody has written since" b)
+                         | Model.LFull (a0, v0) ->
+                           fail i "prop" (Printf.sprintf "apply cache hit in bucket %d returns ([%s] -> [%s]) but the entry written last is ([%s] -> [%s])" b
+                                            (String.concat " " (List.map show_edge args)) (String.concat " " (List.map show_edge vals))
+                                            (String.concat " " (List.map show_edge a0)) (String.concat " " (List.map show_edge v0)))
+                         | Model.LUnknown -> fail i "corr" ("unexpected replay result for: " ^ l)))
+               | _ -> fail i "corr" ("driver: malformed cache event: " ^ l)
+             with Failure m -> fail i "corr" ("driver: " ^ m ^ " in: " ^ l));
+            ignore ints
           | "EV" :: _ -> stat "ev_skipped" 1
           | _ when !in_par -> ()
           | _ ->
